@@ -112,7 +112,8 @@ impl AlcCodec for AlcRS2m {
         |     Source Block Number (32-m                  | Enc. Symb. ID |
         +-+-+-+-+-+-+-+-+-+-+-+-+-+-+-+-+-+-+-+-+-+-+-+-+-+-+-+-+-+-+-+-+
          */
-        let header: u32 = (sbn << m) | esi & 0xFF;
+        let esi_mask = (1u32 << m) - 1u32;
+        let header: u32 = (sbn << m) | esi & esi_mask;
         data.extend(header.to_be_bytes());
     }
 
